@@ -22,14 +22,14 @@ theorem schema_up_any (g : Globals) (hg : g.dialect = .mysql) (rc : Bool)
     (hpo : old.all Stmt.plainOpts = true) (hpn : new.all Stmt.plainOpts = true)
     (heo : execAll rc [] old = some dbO) (hen : execAll rc [] new = some dbN)
     (hdef : ∀ tb ∈ dbO ++ dbN, tb.name ≠ Migration.defaultMigrationTable)
-    (hnofk : ∀ tb ∈ dbO ++ dbN, tb.fks = [])
     (hboth : ∀ tbO ∈ dbO, ∀ tbN ∈ dbN, tbO.name = tbN.name →
       Abs.OrderCompatible tbN.colNames tbO.colNames ∧ (∀ n ∈ tbN.colNames ++ tbO.colNames, n ≠ "") ∧ tbO.pk = tbN.pk ∧
       (∀ dc : List String, (∀ c ∈ dc, c ∉ tbN.colNames) →
-        ∀ s ∈ tbN.idxs, ∀ o ∈ tbO.idxs, o.name = s.name → o ≠ s → ∃ c ∈ o.cols, c ∉ dc)) :
+        ∀ s ∈ tbN.idxs, ∀ o ∈ tbO.idxs, o.name = s.name → o ≠ s → ∃ c ∈ o.cols, c ∉ dc) ∧
+      (∀ s ∈ tbN.fks, ∀ o ∈ tbO.fks, s.name = o.name → s = o)) :
     ∃ up, modelUp g old new = .ok up ∧ c01 g.ignoreOrder dbO dbN up false = .ok () := by
   obtain ⟨d, out, hd, hU, ⟨db', he, heq⟩, hj⟩ := schema_spec_up (g.ign false) hg rfl rc old new dbO dbN ho hn hpo hpn heo hen
-    hdef hnofk hboth
+    hdef hboth
   have hup0 : modelUp (g.ign false) old new = .ok out.flatten := by
     unfold modelUp
     simp only [hd, hU, bind, Except.bind, pure, Except.pure]
@@ -65,14 +65,14 @@ theorem schema_down_any (g : Globals) (hg : g.dialect = .mysql) (rc : Bool)
     (hpo : old.all Stmt.plainOpts = true) (hpn : new.all Stmt.plainOpts = true)
     (heo : execAll rc [] old = some dbO) (hen : execAll rc [] new = some dbN)
     (hdef : ∀ tb ∈ dbO ++ dbN, tb.name ≠ Migration.defaultMigrationTable)
-    (hnofk : ∀ tb ∈ dbO ++ dbN, tb.fks = [])
     (hboth : ∀ tbO ∈ dbO, ∀ tbN ∈ dbN, tbO.name = tbN.name →
       Abs.OrderCompatible tbN.colNames tbO.colNames ∧ (∀ n ∈ tbN.colNames ++ tbO.colNames, n ≠ "") ∧ tbO.pk = tbN.pk ∧
       (∀ dc : List String, (∀ c ∈ dc, c ∉ tbO.colNames) →
-        ∀ s ∈ tbN.idxs, ∀ o ∈ tbO.idxs, o.name = s.name → o ≠ s → ∃ c ∈ s.cols, c ∉ dc)) :
+        ∀ s ∈ tbN.idxs, ∀ o ∈ tbO.idxs, o.name = s.name → o ≠ s → ∃ c ∈ s.cols, c ∉ dc) ∧
+      (∀ s ∈ tbN.fks, ∀ o ∈ tbO.fks, s.name = o.name → s = o)) :
     ∃ dn, modelDown g old new = .ok dn ∧ c02 g.ignoreOrder dbO dbN dn false = .ok () := by
   obtain ⟨d, out, hd, hU, ⟨db', he, heq⟩, hj⟩ := schema_spec_down (g.ign false) hg rfl rc old new dbO dbN ho hn hpo hpn heo hen
-    hdef hnofk hboth
+    hdef hboth
   have hdn0 : modelDown (g.ign false) old new = .ok out.flatten := by
     unfold modelDown
     simp only [hd, hU, bind, Except.bind, pure, Except.pure]
@@ -141,15 +141,15 @@ theorem schema_c03_any (g : Globals) (hg : g.dialect = .mysql) (rc : Bool)
     (hpo : old.all Stmt.plainOpts = true) (hpn : new.all Stmt.plainOpts = true)
     (heo : execAll rc [] old = some dbO) (hen : execAll rc [] new = some dbN)
     (hdef : ∀ tb ∈ dbO ++ dbN, tb.name ≠ Migration.defaultMigrationTable)
-    (hnofk : ∀ tb ∈ dbO ++ dbN, tb.fks = [])
     (hboth : ∀ tbO ∈ dbO, ∀ tbN ∈ dbN, tbO.name = tbN.name →
       Abs.OrderCompatible tbN.colNames tbO.colNames ∧ (∀ n ∈ tbN.colNames ++ tbO.colNames, n ≠ "") ∧ tbO.pk = tbN.pk ∧
       (∀ dc : List String, (∀ c ∈ dc, c ∉ tbN.colNames) →
         ∀ s ∈ tbN.idxs, ∀ o ∈ tbO.idxs, o.name = s.name → o ≠ s → ∃ c ∈ o.cols, c ∉ dc) ∧
       (∀ dc : List String, (∀ c ∈ dc, c ∉ tbO.colNames) →
-        ∀ s ∈ tbN.idxs, ∀ o ∈ tbO.idxs, o.name = s.name → o ≠ s → ∃ c ∈ s.cols, c ∉ dc)) :
+        ∀ s ∈ tbN.idxs, ∀ o ∈ tbO.idxs, o.name = s.name → o ≠ s → ∃ c ∈ s.cols, c ∉ dc) ∧
+      (∀ s ∈ tbN.fks, ∀ o ∈ tbO.fks, s.name = o.name → s = o)) :
     ∃ up down, modelUp g old new = .ok up ∧ modelDown g old new = .ok down ∧ c03 dbO dbN up down = .ok () := by
-  obtain ⟨up, down, h1, h2, h3⟩ := schema_c03 (g.ign false) hg rfl rc old new dbO dbN ho hn hpo hpn heo hen hdef hnofk hboth
+  obtain ⟨up, down, h1, h2, h3⟩ := schema_c03 (g.ign false) hg rfl rc old new dbO dbN ho hn hpo hpn heo hen hdef hboth
   cases hio : g.ignoreOrder with
   | false =>
     have hgg : g.ign false = g := by rw [← hio]; exact g.ign_self
